@@ -11,6 +11,8 @@
    recomputed from top) — ANY tables and summaries it accepts, for any call graph (recursive ones
    included), are sound.  The check runs it on the model's result and on the invariants and
    summaries exported by the implementation.
+   Also proved: reuse_summary (the re-instantiation of a summary through the internal names) is
+   sound for arbitrary name sharing.
    C10_model_statement (the model's result is always accepted) is corresponded, not proved.
    Summary domain different from the invariant domain (zones / intervals): not modelled, covered
    by the concrete oracle only. *)
@@ -50,6 +52,24 @@ Theorem C10_checked_results_sound :
      forall s0 s1, genv (s_pre sm) s0 -> exec_fun p (s_fn sm) s0 s1 -> genv (s_post sm) s1).
 Proof. exact ig_check_sound. Qed.
 
+(* the re-instantiation of a summary at a callsite (bu_summ_abs_transformer::reuse_summary, through
+   the internal names $0,$1,..) is sound for arbitrary name sharing between caller and callee.
+   The caller's value must not constrain the internal names (the analyzer forgets them after
+   every callsite) and the summary is over the formal parameters: imposed here by a forget and a
+   projection *)
+Theorem C10_reuse_summary_sound :
+  forall voff outs ins fins fouts,
+  NoDup (fins ++ fouts) -> length fins = length ins -> length fouts = length outs -> NoDup outs ->
+  (forall x, In x (fins ++ fouts) -> (x < voff)%N) -> (forall x, In x ins -> (x < voff)%N) ->
+  (forall x, In x outs -> (x < voff)%N) ->
+  forall caller sum a s1 b, genv caller a -> genv sum s1 ->
+  (forall f y, In (f, y) (combine fins ins) -> s1 f = a y) ->
+  (forall k, b k = assign_outs a outs fouts s1 k) ->
+  genv (bu_reuse voff outs ins fins fouts
+                 (d_forget (iins voff fins ++ iouts voff fins fouts) caller)
+                 (e_project sum (fins ++ fouts))) b.
+Proof. exact bu_reuse_sound. Qed.
+
 Definition C10_model_statement : Prop :=
   forall p delay desc efuel wtos init,
     let voff := prog_voff p in
@@ -83,3 +103,4 @@ Qed.
 Print Assumptions C10_validated_results_sound.
 Print Assumptions C10_summary_any_input.
 Print Assumptions C10_checked_results_sound.
+Print Assumptions C10_reuse_summary_sound.
